@@ -945,6 +945,12 @@ pub fn random_plan(rng: &mut Rng, max_size: u32) -> C11Plan {
             p.fs_faults.push(FsFault { file: id, op, nth, kind });
         }
     }
+    // Which file the list-building phase touches first is HashMap order: a plan must not contain two
+    // things that can end that phase (a failing first open, a directory bearing a recognised name),
+    // or the run would not be a function of the plan.
+    if p.extra.iter().any(|(rel, is_dir)| *is_dir && ID_TABLE.iter().any(|(q, _)| q == rel)) {
+        p.fs_faults.retain(|f| !(f.op == FsOpKind::Open && f.nth == 0));
+    }
     if rng.pct(12) {
         let len: u64 = 3 + p.requests.iter().map(|r| request_frame(r).len() as u64).sum::<u64>() + 4;
         p.cut = Some((rng.below(len + 1) as u32, if rng.pct(70) { crate::conn::CloseKind::Eof } else { crate::conn::CloseKind::Reset }));
